@@ -145,10 +145,35 @@ def run(prog, rep):
     if not fnd or ast.unparse(kwarg(fnd[0], 'parent_node_id') or ast.Constant(None)) != 'self.node_id':
         rep.violation('R2', loc(iface.module, rci), 'Interface.remove_child_interface', 'child not looked up under this interface', 'the child must be found among the children of this interface')
 
+    # a slice-wide service that peers with other services: the ports those services hold for it are removed with it
+    topo_ = prog.cls('fim.user.topology:Topology')
+    trn = topo_.methods.get('remove_network_service')
+    if trn is None:
+        raise AnalysisError('Topology.remove_network_service vanished')
+    trn_i = inline(prog, topo_, trn)
+    tcfg = CFG(trn_i)
+    rm_ns = [c for c in walk_no_nested(trn_i) if isinstance(c, ast.Call) and call_name(c) == 'remove_ns_with_cps_and_links']
+    peer_loops = []
+    for l in [n for n in walk_no_nested(trn_i) if isinstance(n, ast.For)]:
+        gp = [c for c in ast.walk(l) if isinstance(c, ast.Call) and call_name(c) == 'get_peers' and any(isinstance(x, ast.Attribute) and x.attr == 'ServicePort' for x in ast.walk(c))]
+        rmcp = [c for c in ast.walk(l) if isinstance(c, ast.Call) and call_name(c) in ('remove_cp_and_links', 'unpeer', 'remove_interface')]
+        if gp and rmcp:
+            peer_loops.append(l)
+    okp = False
+    if rm_ns and peer_loops:
+        hn = [nd for nd in tcfg.nodes if nd.kind == 'test' and nd.tag == 'for' and nd.ast is peer_loops[0]]
+        rn = flow.node_of(tcfg, rm_ns[0])
+        okp = bool(hn) and rn is not None and hn[0].id in tcfg.dominators().get(rn.id, set())
+    rep.instance('R4', f'Topology.remove_network_service: peering ports held by other services are removed first: {okp}')
+    if not okp:
+        rep.violation('R4', loc(topo_.module, trn), 'Topology.remove_network_service', 'peering ports of other services not removed',
+                      'a service that was peered with another one (peer()) is removed with its own peering port and the link, but the port the '
+                      'other service holds for it stays there without a link: the peering artefacts of the removed element must go with it')
     # ---- R4 ----
     sites = [('fim.user.topology:Topology', 'remove_node', 'remove_network_node_with_components_nss_cps_and_links', ('nodes',)),
              ('fim.user.topology:Topology', 'remove_facility', 'remove_network_node_with_components_nss_cps_and_links', ('facilities', 'nodes')),
-             ('fim.user.node:Node', 'remove_component', 'remove_component_with_nss_cps_and_links', ('components',))]
+             ('fim.user.node:Node', 'remove_component', 'remove_component_with_nss_cps_and_links', ('components',)),
+             ('fim.user.node:Node', 'remove_network_service', 'remove_ns_with_cps_and_links', ('network_services',))]
     for spec, name, remover, colls in sites:
         cls = prog.cls(spec)
         fn0 = cls.methods.get(name)
